@@ -129,6 +129,10 @@ def check_adders(run, rule_ret, rule_cons):
 
 def check(run):
     facts = run.facts
+    # address events are aggregated in a map keyed by the event itself: the count of distinct events (and with it the
+    # moment the block is full) is right only if the key's equality and hash tell all distinct events apart
+    from . import C11
+    C11.check_hash_eq(run, "R12.7", only=["CDNS::AddressEventCount"], floor=4)
     check_buffer_methods(run, "R12.1")
     check_adders(run, "R12.2", "R12.5")
     # R12.3
